@@ -516,8 +516,14 @@ def main_check(P, argv):
         sys.stdout.flush()
         sys.exit(code)
 
+    broken = []
+
     def write_replay(name, obj):
         path = os.path.join(ROOT, "replays", "%s_%s.json" % (prop, name))
+        if broken and isinstance(obj, dict) and "no_longer_checks" not in obj and name != "broken_proof":
+            # a concrete failing input found while a proof / the correspondence is broken: name what no longer checks beside it
+            obj = dict(obj)
+            obj["no_longer_checks"] = [{"what": b[0], "detail": str(b[1])[:1200]} for b in broken]
         with open(path, "w") as f:
             json.dump(obj, f, indent=1)
         return path
@@ -530,7 +536,6 @@ def main_check(P, argv):
         finish(2)
     low = prop.lower()
     ok_mk, mk_out, ok_gen, gen_out = coq_make(["Properties_%s.vo" % prop, "Extract_%s.vo" % prop], with_regen=True)
-    broken = []
     if not ok_gen:
         # only the plugins whose generated file this property's theorems / extraction depend on concern this check
         used = set(os.path.basename(f)[4:-2] for f in coq_closure([os.path.join(COQ, "Properties_%s.v" % prop), os.path.join(COQ, "Extract_%s.v" % prop)])
